@@ -13,6 +13,7 @@ class BaseManager:
         self.rooms = {}  # self.rooms[namespace][room][sio_sid] = eio_sid
         self.eio_to_sid = {}
         self.callbacks = {}
+        self.callback_ids = {}
         self.pending_disconnect = {}
 
     def set_server(self, server):
@@ -94,6 +95,8 @@ class BaseManager:
             self.basic_leave_room(sid, namespace, room)
         if sid in self.callbacks:
             del self.callbacks[sid]
+        if sid in self.callback_ids:
+            del self.callback_ids[sid]
         if namespace in self.pending_disconnect and \
                 sid in self.pending_disconnect[namespace]:
             self.pending_disconnect[namespace].remove(sid)
@@ -141,9 +144,11 @@ class BaseManager:
 
     def _generate_ack_id(self, sid, callback):
         """Generate a unique identifier for an ACK packet."""
+        if sid not in self.callback_ids:
+            self.callback_ids[sid] = itertools.count(1)
+        id = next(self.callback_ids[sid])
         if sid not in self.callbacks:
-            self.callbacks[sid] = {0: itertools.count(1)}
-        id = next(self.callbacks[sid][0])
+            self.callbacks[sid] = {}
         self.callbacks[sid][id] = callback
         return id
 
